@@ -7,11 +7,11 @@ Require Import Model.Text Model.Ast Model.Scope Model.Ident Model.Fmt Model.Eval
 Import ListNotations.
 Local Open Scope char_scope.
 
-Definition direct (x : str) : Prop := match x with "@" :: "@" :: _ => False | _ => True end.
+Definition direct (x : str) : Prop := match x with "@" :: "@" :: _ => False | _ => True end /\ is_interp x = false.
 Lemma lookup_with_direct rec sc x : direct x ->
   lookup_with rec sc x = match variables x sc with Some v => rec v | None => RError $"SyntaxError" ($"Unknown variable " ++ x) end.
 Proof.
-  intros H. unfold lookup_with. destruct x as [|c [|d r]]; try reflexivity.
+  intros [H Hi]. unfold lookup_with. rewrite Hi. destruct x as [|c [|d r]]; try reflexivity.
   - destruct c as [[] [] [] [] [] [] [] []]; reflexivity.
   - destruct c as [[] [] [] [] [] [] [] []]; try reflexivity; destruct d as [[] [] [] [] [] [] [] []]; try reflexivity; contradiction.
 Qed.
